@@ -317,6 +317,23 @@ func (w *W) c15Program(k int) {
 			var out *simdjson.ParsedJson
 			var derr error
 			src := o.ptr.Clone(nil)
+			if r.Chance(1, 4) {
+				// first a blob whose framing is intact but whose compressed payload is damaged: the
+				// failure comes from inside a block decoder; nothing of it may survive in the Serializer
+				walk.Guard(func() error {
+					ser.CompressMode(compModes[1+r.Intn(3)])
+					bad := ser.Serialize(nil, *src)
+					if len(bad) > 24 {
+						for k := 0; k < 3; k++ {
+							bad[len(bad)/3+r.Intn(len(bad)-len(bad)/3)] ^= byte(1 + r.Intn(255))
+						}
+						ser.Deserialize(bad, serDst)
+					}
+					ser.CompressMode(mode)
+					return nil
+				})
+				trace = append(trace, "deser(payload-damaged)")
+			}
 			perr := walk.Guard(func() error {
 				blob = ser.Serialize(nil, *src)
 				out, derr = ser.Deserialize(blob, serDst)
